@@ -262,7 +262,7 @@ def batch_picky(f):
 
 
 def batch_picky_items(label, f):
-    return batch_picky(f)
+    return batch_picky(f) + int(label[1:])
 
 
 def batch_run(rng):
@@ -271,6 +271,11 @@ def batch_run(rng):
     frames = [f.relabel(columns=['c%d' % j for j in range(f.shape[1])]) for f in frames]
     rng.shuffle(frames)
     items = [(f.name, f) for f in frames]
+    if rng.random() < 0.6:
+        # Batch labels that are not the Frames' names (from_frames draws them from the names, the constructor does not have to): what a
+        # function of (label, frame) receives is the label of the Batch
+        nums = rng.sample(range(10, 40), k)
+        items = [('x%d' % nums[i], f if rng.random() < 0.7 else f.rename(None)) for i, f in enumerate(frames)]
     w = rng.randint(1, 6)
     c = rng.randint(1, k + 1)
     threads = rng.random() < 0.6
@@ -443,7 +448,7 @@ def main(ctx):
     ctx.sample({'leg': 'V', 'run': [{k: e[k] for k in ('kind', 'i', 'key', 'val')} for e in runs[0]][:20]})
     return ctx.finish(rule='M: every schedule of 6 instances (N 4-8, W 2-4, chunksize 1-3, 0-2 failing items) incl. the consumer; negative control lazy submission. '
                            'R: completion orders of simulated behaviours steered with per-task delays on a real thread pool, the run recorded (start / finish under a lock, yields) and validated; '
-                           'V: random traced thread-pool runs (N 1-8, W 1-8, random delays, failing items, values and items forms); 17 iterator interfaces x workers 1-8 x chunksize 1..n+1 x threads / processes compared with apply(); Batch with max_workers (5 operations); zip pickle / csv / tsv stores written and read with workers incl. per-label StoreConfigMap',
+                           'V: random traced thread-pool runs (N 1-8, W 1-8, random delays, failing items, values and items forms); 17 iterator interfaces x workers 1-8 x chunksize 1..n+1 x threads / processes compared with apply(); Batch with max_workers (8 operations, labels equal to or different from the names of the Frames, label-dependent item functions); zip pickle / csv / tsv stores written and read with workers incl. per-label StoreConfigMap',
                       trusted=['TLC 1.8 + CommunityModules', 'concurrent.futures executor semantics', 'time.sleep-based steering of completion order (reported, not assumed)'])
 
 
